@@ -211,3 +211,59 @@ Theorem syntax_error_reported : forall w r, In r (ws_perrs w) -> In (r, DSyntax)
 Proof.
   intros w r H. unfold diagnostics. apply in_or_app. left. apply in_map_iff. now exists r.
 Qed.
+
+(** ---- missing template argument *)
+Lemma remove_name_keeps : forall x u nm,
+    In nm u -> name_eqb x nm = false -> In nm (snd (remove_name x u)).
+Proof.
+  intros x u nm. induction u as [|y r IH]; intros Hin Hne; [destruct Hin|].
+  simpl. destruct (name_eqb x y) eqn:E.
+  - destruct Hin as [->|Hin]; [congruence|exact Hin].
+  - destruct (remove_name x r) as [b r'] eqn:Er. simpl in *.
+    destruct Hin as [->|Hin]; [now left|right; now apply IH].
+Qed.
+
+Definition positional (a : option argv) : bool :=
+  match a with Some (None, _, _) => true | _ => false end.
+
+Lemma cta_loop_unsolved : forall s targs args k u nm,
+    forallb positional args = true -> In nm u ->
+    (forall i a', (k <= i < k + length args)%nat -> nth_error targs i = Some a' -> name_eqb (lf_name a') nm = false) ->
+    In nm (snd (cta_loop s targs k u args)).
+Proof.
+  intros s targs args. induction args as [|x rest IH]; intros k u nm Hp Hin Hd; [exact Hin|].
+  simpl in Hp. apply andb_true_iff in Hp. destruct Hp as [Hx Hp].
+  destruct x as [[[[n0|] t0] r0]|]; try discriminate.
+  simpl. destruct (nth_error targs k) as [a|] eqn:Ek.
+  - destruct (cta_loop s targs (S k) (snd (remove_name (lf_name a) u)) rest) as [d3 u3] eqn:E3. simpl.
+    replace u3 with (snd (cta_loop s targs (S k) (snd (remove_name (lf_name a) u)) rest)) by now rewrite E3.
+    apply IH; auto.
+    + apply remove_name_keeps; auto. apply (Hd k a); [cbn [length]; lia|exact Ek].
+    + intros i a' Hi. apply Hd. cbn [length]. lia.
+  - destruct (cta_loop s targs (S k) u rest) as [d3 u3] eqn:E3. simpl.
+    replace u3 with (snd (cta_loop s targs (S k) u rest)) by now rewrite E3.
+    apply IH; auto. intros i a' Hi. apply Hd. cbn [length]. lia.
+Qed.
+
+Lemma name_eqb_refl : forall n, name_eqb n n = true.
+Proof. induction n as [|x r IH]; simpl; [reflexivity|]. now rewrite N.eqb_refl, IH. Qed.
+
+Theorem missing_template_argument : forall s targs args r a,
+    forallb positional args = true -> (length args <= length targs)%nat ->
+    In a targs -> lf_default a = false ->
+    (* the name of [a] is not the name of one of the arguments that are given (positions < length args) ... *)
+    (forall i a', (i < length args)%nat -> nth_error targs i = Some a' -> name_eqb (lf_name a') (lf_name a) = false) ->
+    (* ... and no template argument of that name has a default *)
+    (forall a', In a' targs -> name_eqb (lf_name a') (lf_name a) = true -> lf_default a' = false) ->
+    In (r, DArgMissing) (check_template_args s targs args r).
+Proof.
+  intros s targs args r a Hp Hlen Hin Hnd Hdiff Hall. unfold check_template_args, argv, dg in *.
+  destruct (Nat.ltb_spec (length targs) (length args)); [lia|].
+  pose proof (cta_loop_unsolved s targs args 0 (map lf_name targs) (lf_name a) Hp) as G.
+  destruct (cta_loop s targs 0 (map lf_name targs) args) as [d un]. simpl in G.
+  apply in_or_app. right. apply in_flat_map. exists (lf_name a). split.
+  - apply G; [now apply in_map|]. intros i a' Hi. apply Hdiff. destruct Hi as [_ Hi]. simpl in Hi. exact Hi.
+  - unfold find_targ. destruct (find (fun a0 => name_eqb (lf_name a0) (lf_name a)) targs) as [a'|] eqn:Ef.
+    + apply find_some in Ef. destruct Ef as [Hi He]. rewrite (Hall a' Hi He). now left.
+    + exfalso. pose proof (find_none _ _ Ef a Hin) as Hc. simpl in Hc. rewrite name_eqb_refl in Hc. discriminate.
+Qed.
